@@ -550,6 +550,11 @@ pub fn gen_c14(rng: &mut Rng, _tier: Tier) -> NetProgram {
         if rng.chance(1, 12) && !prog.modules[i].beats.is_empty() {
             prog.modules[i].catching = true;
             let bi = rng.usize(prog.modules[i].beats.len());
+            // (now and then the handler declares its panics as caught only in the very event in which it panics)
+            if rng.chance(1, 3) {
+                prog.modules[i].catching = false;
+                prog.modules[i].beats[bi].acts.push(Act::SetCatching { v: true });
+            }
             prog.modules[i].beats[bi].acts.push(Act::Panic);
         }
         // now and then a large burst of same-instant emissions from one handler
@@ -992,7 +997,7 @@ pub fn gen_c16(rng: &mut Rng, tier: Tier) -> NetProgram {
     }
     for m in &mut prog.modules {
         let n = 1 + rng.small(6) as usize;
-        m.rx_ops = (0..n).map(|_| rng.below(8) as u8).collect();
+        m.rx_ops = (0..n).map(|_| rng.below(10) as u8).collect();
         // bursts, so that busy channels and full queues really lose messages
         for b in &mut m.beats {
             if rng.chance(1, 2) {
